@@ -153,6 +153,41 @@ RECURSIVE RunFrom(_, _)
 RunFrom(st, prog) == IF prog = <<>> THEN st ELSE RunFrom(ApplyOp(st, Head(prog)), Tail(prog))
 RunProg(prog) == RunFrom(Start, prog)
 
+(* ------------------------------ designs on real pads: use sets ------------------------------ *)
+(* A design places buffers on core I/O ports ("pads" 1..N of the given widths).  A buffer               *)
+(*   [kind |-> "raw" | "comb" | "ff", bdir, segs |-> Seq([pad, lo, hi]), neg, site]                       *)
+(* is an IOBufferInstance ("raw": no inversion) or a lib.io Buffer / FFBuffer on the library port         *)
+(* pad[lo:hi] (+ pad'[lo':hi']), inverted once more when neg; library ports carry the mask PadMask.       *)
+(* Every bit of a core I/O port may be used once: the design is accepted iff no pad bit occurs twice,    *)
+(* be it in two buffers or twice in the port of one buffer; otherwise building the netlist is refused    *)
+(* (DriverConflict).  `site` names the source line at which the buffer instance is created; it has no    *)
+(* influence on the verdict (the mutant "same_site_ok" only notices conflicts between different sites).  *)
+PadMask(w) == [k \in 1..w |-> k % 2 = 1]
+SegPort(sg, padw, raw) ==
+    Slice(Leaf(sg.pad, "io", IF raw THEN Zeros(padw[sg.pad]) ELSE PadMask(padw[sg.pad])), sg.lo, sg.hi)
+RECURSIVE CatSegs(_, _, _)
+CatSegs(segs, padw, raw) ==
+    IF Len(segs) = 1 THEN SegPort(segs[1], padw, raw)
+    ELSE Concat(CatSegs(SubSeq(segs, 1, Len(segs) - 1), padw, raw), SegPort(segs[Len(segs)], padw, raw))
+BufPort(b, padw) ==
+    LET p == CatSegs(b.segs, padw, b.kind = "raw") IN IF b.neg /\ b.kind # "raw" THEN Invert(p) ELSE p
+(* all uses of pad bits in order: <<pad, bit, site>> *)
+RECURSIVE AllUses(_, _)
+AllUses(bufs, padw) ==
+    IF bufs = <<>> THEN <<>>
+    ELSE LET src == BufPort(Head(bufs), padw).src
+         IN [k \in 1..Len(src) |-> <<src[k][1], src[k][2], Head(bufs).site>>] \o AllUses(Tail(bufs), padw)
+Accepted(bufs, padw) ==
+    LET u == AllUses(bufs, padw) IN
+    \A j, k \in 1..Len(u) : (j # k /\ u[j][1] = u[k][1] /\ u[j][2] = u[k][2]) =>
+                              (Mutant = "same_site_ok" /\ u[j][3] = u[k][3])
+UsedBits(bufs, padw) == LET u == AllUses(bufs, padw) IN {<<u[k][1], u[k][2]>> : k \in 1..Len(u)}
+RevSeq(q) == [k \in 1..Len(q) |-> q[Len(q) + 1 - k]]
+UseLaw(bufs, padw) ==
+    /\ Accepted(bufs, padw) <=> Len(AllUses(bufs, padw)) = Cardinality(UsedBits(bufs, padw))
+    /\ Accepted(bufs, padw) = Accepted(RevSeq(bufs), padw)
+    /\ Accepted(bufs, padw) => \A m \in 1..Len(bufs) : Accepted(SubSeq(bufs, 1, m), padw) /\ Accepted(<<bufs[m]>>, padw)
+
 (* ------------------------------ theorems (checked by TLC on every enumerated port) ------------------------------ *)
 WellFormed(p) == p.dir \in Dirs /\ Len(p.inv) = Len(p.src) /\ p.inv \in Bits(Width(p))
 (* every physical wire occurs at most once in a port built from distinct leaves *)
